@@ -497,7 +497,10 @@ class Session:
                 unordered = True
         unordered_in = any(key in step and _has_unordered_input(step[key]) for key in ("x", "v", "xs"))
         tk = self.kinds_of(step.get("t"))
-        if unordered and out is not None and ("union" in tk or (unordered_in and "set" not in tk)):
+        top_unordered_into_ordered = any(
+            isinstance(step.get(key), dict) and any(tag in step[key] and len(step[key][tag]) >= 2 for tag in ("$set", "$frozenset"))
+            for key in ("x", "v")) and isinstance(step.get("t"), dict) and step["t"].get("k") not in model.SETLIKE
+        if unordered and out is not None and ("union" in tk or (unordered_in and "set" not in tk) or top_unordered_into_ordered):
             # first-acceptor unions over an unordered input: which member accepts (or whether any
             # does) can depend on the set's iteration order, i.e. on the hash seed; the same holds for
             # an unordered input handed to an *ordered* target (a set enumerated into a list / mapping:
